@@ -49,10 +49,12 @@ FORMATS = ["setfl_fs", "DL_POLY_EAM_fs", "excel_eam_fs"]
 
 
 @st.composite
-def _case(draw, fmt, n_min=1, n_max=4):
+def _case(draw, fmt, n_min=1, n_max=4, near_copies=False):
     routes = ["class", "potable"] + (["function"] if fmt != "excel_eam_fs" else [])
     route = draw(st.sampled_from(routes))
-    m = draw(gen.eam_model("fs", n_min, n_max, depth=1, pycallables=(route != "potable")))
+    m = draw(gen.eam_model("fs", n_min, n_max, depth=1, pycallables=(route != "potable"), near_copies=near_copies))
+    if near_copies:
+        m["near_copies"] = True
     m["route"] = route
     m["format"] = fmt
     m["int_zero"] = draw(st.integers(0, 2)) == 0      # Python callables returning the int 0 where they vanish
@@ -94,6 +96,8 @@ def strata(tier):
         out.append((f + ":1-2", _case(f, 1, 2), 1))
         out.append((f + ":2-4", _case(f, 2, 4), 3))
     out.append(("rewrite", st.sampled_from(FORMATS).flatmap(_rewrite), 1))
+    # directions / elements whose functions are an earlier one with a boundary moved or one parameter changed
+    out.append(("near_copies", st.sampled_from(FORMATS).flatmap(lambda f: _case(f, 2, 3, True)), 1.5))
     return out
 
 
@@ -300,7 +304,7 @@ def _check_rewrite(m, cls):
 
 def check_case(m):
     fmt, route = m["format"], m["route"]
-    cls = ["format:" + fmt, "route:" + route]
+    cls = ["format:" + fmt, "route:" + route] + (["near_copies"] if m.get("near_copies") else [])
     if m.get("int_returns") and not str(route).startswith(("potable", "main", "cli")):
         cls.append("callables_return_ints")
     els = eamtab.element_set(m)
